@@ -16,7 +16,8 @@ MODULE = "ConfigState"
 # family -> (MaxObj, MaxDepth) ; sizes measured, see design_notes/C07.md
 BOUNDS = {
     "quick": {"L": (2, 3), "C": (3, 4), "F": (3, 4), "K": (4, 6), "T": (3, 4), "M": (4, 4)},
-    "thorough": {"L": (2, 4), "C": (3, 5), "F": (4, 5), "K": (6, 7), "T": (4, 5), "M": (5, 5)},
+    # K: (6, 7) before the spellings of the certificate text (1.2 k states); with them (5, 6) = 4.6 k states
+    "thorough": {"L": (2, 4), "C": (3, 5), "F": (4, 5), "K": (5, 6), "T": (4, 5), "M": (5, 5)},
 }
 PAIR_BOUNDS = {
     "quick": {"L": (2, 3), "C": (3, 3), "F": (3, 3), "K": (4, 3), "T": (3, 3), "M": (4, 3)},
